@@ -522,7 +522,7 @@ def decide(prop, spec, results, tier, seed, t0):
            'level_b_drift_records': sum(r['stats'].get('drift', 0) for r in results),
            'judged_by_tlc': judged,
            'distinct_violation_signatures': nviol}
-    if prop in ('C01', 'C03'):
+    if prop in ('C01', 'C03', 'C09'):
         try:
             cov['unbounded_proofs_tlapm'] = run_proofs()
         except Exception as ex:           # informational only
